@@ -139,3 +139,9 @@ package tchannel
 //@   label refused-only-with-the-calls-own-end
 //@   ensures err != nil ==> err == mex.errCh.err || (ctxerr(mex.ctx) != nil && (err == ErrTimeout || err == ErrRequestCancelled || err == ctxerr(mex.ctx)))
 //@   property C05
+
+// (primary file) the reader loop's hand-over: the table lookup runs under the
+// exchange set's read lock, whose critical sections must not block -- the
+// (blocking, bounded) hand-over to the exchange happens after the lock is given up.
+//@ func (mexset *messageExchangeSet) forwardPeerFrame(frame *Frame) (err error)
+//@   property C05
